@@ -483,7 +483,7 @@ func (g *c17Gen) corruptions(mod string, n, size int, all bool) []string {
 	if mod == "wget" {
 		return []string{"data:0", "sha"}
 	}
-	out = append(out, "sha", "len:1", "len:-1")
+	out = append(out, "sha", "len:1", "len:-1", []string{"shatrunc:47", "shatrunc:32", "shatrunc:1"}[g.r.IntN(3)])
 	if all {
 		out = append(out, fmt.Sprintf("len:%d", 1+g.r.IntN(5000)), fmt.Sprintf("len:-%d", size), fmt.Sprintf("len:-%d", size+1+g.r.IntN(100)))
 		if size > 2 {
